@@ -82,6 +82,8 @@ type Hooks struct {
 	OnClientSend func(s *Stream, n int) (time.Duration, error)
 	// StreamCreated lets the harness keep a handle on every stream.
 	StreamCreated func(s *Stream)
+	// OnClose is called on every ClientConn.Close.
+	OnClose func(cc *ClientConn)
 }
 
 var hooks atomic.Pointer[Hooks]
@@ -548,6 +550,9 @@ var ErrClosing = status.Error(codes.Canceled, "grpc: the client connection is cl
 
 // Close closes the connection; streams on it end with Canceled.
 func (cc *ClientConn) Close() error {
+	if h := getHooks(); h.OnClose != nil {
+		h.OnClose(cc)
+	}
 	cc.mu.Lock()
 	cc.Closes++
 	if cc.closed {
@@ -635,6 +640,13 @@ func DialContext(ctx context.Context, target string, opts ...grpc.DialOption) (*
 	}
 	cctx, cancel := context.WithCancel(context.Background())
 	return &ClientConn{target: target, ctx: cctx, cancel: cancel}, nil
+}
+
+// NewConn returns a connected ClientConn without dialling (for scripted dial
+// functions in harnesses).
+func NewConn(target string) *ClientConn {
+	cctx, cancel := context.WithCancel(context.Background())
+	return &ClientConn{target: target, ctx: cctx, cancel: cancel}
 }
 
 // Dial mirrors grpc.Dial.
